@@ -4,7 +4,7 @@
    on the verdict, the bytes of Example() and the shape of GetAST().  Renders (Proofs/JsonValueProofs.v): the texts a
    tree can be written as - RFC 8259 scalars without exponent (EnumScalar), any blank space between the tokens. *)
 From Coq Require Import List NArith Bool.
-From JS Require Import Base.Res Spec.JsonGrammar Model.EnumParse Model.JsonValue Proofs.EnumProofs Proofs.JsonValueProofs.
+From JS Require Import Base.Res Spec.JsonGrammar Model.EnumParse Model.JsonValue Proofs.EnumProofs Proofs.JsonValueProofs Proofs.EscapeProofs Proofs.ExampleRoundTrip.
 Import ListNotations.
 
 (* every JSON text without exponent numbers and duplicate keys is accepted, whatever its whitespace, and the tree built
@@ -24,9 +24,24 @@ Theorem C03_scalar_rescan : forall lit, EnumScalar lit -> forall r, stop r -> sc
 Proof. exact scalar_rescan. Qed.
 Print Assumptions C03_scalar_rescan.
 
+(* Example() of an accepted JSON text (a text of bytes) is accepted again, and the tree it gives (norm v: the keys
+   written again by the encoder) has the same shape, the same literals in the same order, and keys that denote the
+   same strings - so Example() denotes the same value *)
+Theorem C03_example_roundtrip : forall v s, Renders v s -> Forall is_byte s -> keys_ok (S (depth v)) v = true ->
+  jparse (example v) = Some (norm v) /\ veq (norm v) v.
+Proof. exact example_roundtrip. Qed.
+Print Assumptions C03_example_roundtrip.
+(* the two halves behind it: the encoder's escapes are read back as the same characters, for every Unicode scalar
+   value and whatever follows; and every character a JSON string of bytes denotes is a scalar value *)
+Theorem C03_decode_escape : forall cps, Forall valid_cp cps -> forall f, (length cps <= f)%nat -> decode f (flat_map go_escape_cp cps) = cps.
+Proof. exact decode_escape. Qed.
+Theorem C03_decode_valid : forall f s, Forall is_byte s -> Forall valid_cp (decode f s).
+Proof. exact decode_valid. Qed.
+Print Assumptions C03_decode_escape.
+Print Assumptions C03_decode_valid.
+
 (* Example(): non-vacuity of the printer on a document with escaped keys, nested containers and tricky literals;
-   the general round trip (jparse (example v) denotes v) is not proved yet - it is covered by the correspondence
-   (Example() bytes = example of the model's tree) and by the independent oracle *)
+   (the general statement is C03_example_roundtrip) *)
 Local Open Scope N_scope.
 Example C03_example :
   let s := [123; 34; 92; 117; 48; 48; 54; 49; 34; 58; 32; 91; 49; 44; 10; 45; 48; 46; 53; 48; 93; 44; 34; 60; 34; 58; 110; 117; 108; 108; 125] in
